@@ -599,7 +599,9 @@ func famFsReq(o *Out, r *RNG, thorough bool) {
 	// compare strings instead of paths, or take "..x" for "..", show here), plus PROPFIND/GET of each
 	tree2 := []fsEntry{{path: "/", dir: true}, {path: "/a", dir: true}, {path: "/a/x", content: "1"}, {path: "/ab", content: "2"}, {path: "/a.bak", dir: true},
 		{path: "/docs", dir: true}, {path: "/docs/..old", content: "3"}, {path: "/docs/...", dir: true}, {path: "/docs/.../in", content: "4"}, {path: "/docs/r", content: "5"},
-		{path: "/.hidden", content: "6"}, {path: "/..data", dir: true}, {path: "/..data/f", content: "7"}}
+		{path: "/.hidden", content: "6"}, {path: "/..data", dir: true}, {path: "/..data/f", content: "7"},
+		// siblings named like the temporary files an "atomic write" would use
+		{path: "/n", content: "8"}, {path: "/n.tmp", content: "9"}, {path: "/n~", content: "10"}, {path: "/m.tmp", dir: true}, {path: "/m.part", content: "11"}, {path: "/.n.swp", content: "12"}}
 	sb.reset(tree2)
 	base2 := sxTree(sb.listing())
 	names2 := []string{"/a", "/ab", "/a.bak", "/abc", "/a/x", "/a/xy", "/docs", "/docs/..old", "/docs/...", "/docs/.../in", "/docs/..new", "/.hidden", "/..data", "/..data/f", "/.h"}
@@ -629,6 +631,15 @@ func famFsReq(o *Out, r *RNG, thorough bool) {
 		}
 		line, out := sb.do(fsReq{method: "GET", path: src, fault: -1})
 		o.Emit("fs.req", line, out)
+	}
+	for _, p := range []string{"/n", "/m", "/n.tmp", "/new", "/docs/r", "/a/x", "/m.tmp/k"} {
+		for _, body := range []string{"", "v2", "a longer replacement body"} {
+			line, out := sb.do(fsReq{method: "PUT", path: p, body: body, fault: -1})
+			o.Emit("fs.req", line, out)
+			if sxTree(sb.listing()) != base2 {
+				sb.reset(tree2)
+			}
+		}
 	}
 	sb.reset(tree)
 	// random histories over a larger universe
